@@ -205,6 +205,26 @@ Qed.
 Lemma closed_app p q : closed p -> closed q -> closed (p ++ q).
 Proof. intros Hp Hq. eapply bounded_app; eauto. lia. Qed.
 
+(** [closed] spelled out: a jump lands at most at the end of the list *)
+Lemma closed_cons i r :
+  closed (i :: r) <->
+  match i with
+  | IJmpIf _ _ jt jf => jt <= N.of_nat (length r) /\ jf <= N.of_nat (length r)
+  | IJa s => s <= N.of_nat (length r)
+  | _ => True
+  end /\ closed r.
+Proof. cbn [bounded]. destruct i; cbn [jump_ok]; intuition lia. Qed.
+
+(** [bounded 0] spelled out: a jump lands on an instruction of the list *)
+Lemma bounded0_cons i r :
+  bounded 0 (i :: r) <->
+  match i with
+  | IJmpIf _ _ jt jf => jt < N.of_nat (length r) /\ jf < N.of_nat (length r)
+  | IJa s => s < N.of_nat (length r)
+  | _ => True
+  end /\ bounded 0 r.
+Proof. cbn [bounded]. destruct i; cbn [jump_ok]; intuition lia. Qed.
+
 (** a skip computed by [resolve] is a distance to a marker inside the resolved suffix *)
 Lemma dist_le_resolve r : forall l d p,
   dist l r = Some d -> resolve r = Some p -> d <= N.of_nat (length p).
@@ -570,3 +590,231 @@ Proof.
     apply Forall_app. split; [exact By|repeat constructor].
   - exists (prologue ai jumpN ++ [ILd 0] ++ x32 ++ body), d. rewrite <- !app_assoc. reflexivity.
 Qed.
+
+(** ** 2f. What the kernel's verifier checks, on encoded instructions *)
+Lemma encode_insn_ok i rest :
+  jump_ok 0 i rest -> load_good i ->
+  classic_insn_ok (encode i) rest = true /\ seccomp_insn_ok (encode i) = true.
+Proof.
+  destruct i as [off|c kk jt jf|s|v]; cbn [jump_ok load_good]; intros HJ HL.
+  - destruct HL as [L1 L2]. unfold classic_insn_ok, seccomp_insn_ok. cbn [encode sf_code sf_k sf_jt sf_jf].
+    assert (E1: (off <? SKF_AD_OFF) = true) by (apply N.ltb_lt; unfold SKF_AD_OFF; lia).
+    assert (E2: (off <? SECCOMP_DATA_SIZE) = true) by (apply N.ltb_lt; unfold SECCOMP_DATA_SIZE; lia).
+    assert (E3: (N.land off 3 =? 0) = true) by (apply N.eqb_eq; exact L2).
+    unfold BPF_LD_W_ABS. rewrite E1, E2, E3. split; reflexivity.
+  - destruct HJ as [J1 J2]. rewrite N.add_0_r in J1, J2.
+    assert (E1: (jt <? rest) = true) by (apply N.ltb_lt; exact J1).
+    assert (E2: (jf <? rest) = true) by (apply N.ltb_lt; exact J2).
+    destruct c; unfold classic_insn_ok, seccomp_insn_ok; cbn [encode jump_raw sf_code sf_k sf_jt sf_jf];
+    unfold BPF_JMP_JEQ_K, BPF_JMP_JGT_K, BPF_JMP_JGE_K, BPF_JMP_JSET_K; rewrite E1, E2; split; reflexivity.
+  - rewrite N.add_0_r in HJ.
+    assert (E1: (s <? rest) = true) by (apply N.ltb_lt; exact HJ).
+    unfold classic_insn_ok, seccomp_insn_ok; cbn [encode sf_code sf_k sf_jt sf_jf].
+    unfold BPF_JMP_JA. rewrite E1. split; reflexivity.
+  - split; reflexivity.
+Qed.
+
+Lemma encode_insns_ok p :
+  bounded 0 p -> Forall load_good p ->
+  classic_insns_ok (map encode p) = true /\ forallb seccomp_insn_ok (map encode p) = true.
+Proof.
+  induction p as [|i r IH]; intros Hb Hl; [split; reflexivity|].
+  cbn [bounded] in Hb. destruct Hb as [Hi Hr]. inversion Hl as [|? ? Li Lr]; subst.
+  destruct (IH Hr Lr) as [I1 I2]. destruct (encode_insn_ok i _ Hi Li) as [E1 E2].
+  cbn [map classic_insns_ok forallb]. rewrite map_length, E1, E2, I1, I2. split; reflexivity.
+Qed.
+
+Lemma mask_and_at_length ms : forall d v, length (mask_and_at ms d v) = length ms.
+Proof.
+  induction ms as [|m ms IH]; intros d v; cbn [mask_and_at]; [reflexivity|].
+  destruct (d =? 0); cbn [length]; [reflexivity|]. rewrite IH. reflexivity.
+Qed.
+
+(** check_load_and_stores has nothing to object to: the programs never touch M[].
+    Generalised over the masks (any list of the right length) and the valid-set. *)
+Lemma loads_stores_encode p : forall masks mv,
+  length masks = length p -> loads_stores_ok (map encode p) masks mv = true.
+Proof.
+  induction p as [|i p IH]; intros masks mv H; [reflexivity|].
+  destruct masks as [|m ms]; [discriminate|]. cbn [length] in H. injection H as H.
+  destruct i as [off|c kk jt jf|s|v].
+  - change (loads_stores_ok (map encode (ILd off :: p)) (m :: ms) mv)
+      with (loads_stores_ok (map encode p) ms (N.land mv m)). apply IH. exact H.
+  - destruct c.
+    all: try (change (loads_stores_ok (map encode (IJmpIf _ kk jt jf :: p)) (m :: ms) mv)
+      with (loads_stores_ok (map encode p) (mask_and_at (mask_and_at ms jt (N.land mv m)) jf (N.land mv m)) mask_all);
+      apply IH; rewrite !mask_and_at_length; exact H).
+    all: change (loads_stores_ok (map encode (IJmpIf _ kk jt jf :: p)) (m :: ms) mv)
+      with (loads_stores_ok (map encode p) (mask_and_at (mask_and_at ms jf (N.land mv m)) jt (N.land mv m)) mask_all);
+      apply IH; rewrite !mask_and_at_length; exact H.
+  - change (loads_stores_ok (map encode (IJa s :: p)) (m :: ms) mv)
+      with (loads_stores_ok (map encode p) (mask_and_at ms s (N.land mv m)) mask_all).
+    apply IH. rewrite mask_and_at_length. exact H.
+  - change (loads_stores_ok (map encode (IRet v :: p)) (m :: ms) mv)
+      with (loads_stores_ok (map encode p) ms (N.land mv m)). apply IH. exact H.
+Qed.
+
+Lemma ours_encode p : ours (map encode p) = true.
+Proof.
+  induction p as [|i p IH]; [reflexivity|]. cbn [map ours forallb]. fold (ours (map encode p)). rewrite IH.
+  destruct i as [|c| |]; [|destruct c| |]; reflexivity.
+Qed.
+
+(** ** 2. The kernel accepts every compiled program of at most BPF_MAXINSNS instructions.
+    No well-formedness hypothesis is needed: the verifier does not look at the constants of
+    comparisons and returns, and the load offsets are forced by [to_syscalls] (argument index <= 5).
+    The bound is necessary: bpf_check_basics_ok rejects longer programs. *)
+Theorem compiled_kernel_valid le k ai pol p :
+  compile le k ai pol = Ok p -> (length p <= 4096)%nat ->
+  kernel_check (map encode p) = true.
+Proof.
+  intros H Hlen. destruct (compiled_structure _ _ _ _ _ H) as (Hb & Hl & _ & q & d & E).
+  destruct (encode_insns_ok p Hb Hl) as [C S].
+  unfold kernel_check, bpf_check_classic. cbv zeta. rewrite C, S, map_length.
+  rewrite loads_stores_encode by (rewrite repeat_length; reflexivity).
+  assert (L: last_is_ret (map encode p) = true).
+  { rewrite E, map_app. cbn [map]. unfold last_is_ret. rewrite rev_unit. reflexivity. }
+  rewrite L.
+  assert (N1: (N.of_nat (length p) =? 0) = false).
+  { apply N.eqb_neq. rewrite E, app_length. cbn [length]. lia. }
+  assert (N2: (N.of_nat (length p) <=? BPF_MAXINSNS) = true).
+  { apply N.leb_le. unfold BPF_MAXINSNS. lia. }
+  rewrite N1, N2. reflexivity.
+Qed.
+Print Assumptions compiled_kernel_valid.
+
+(** x/net/bpf stores jt and jf in uint8 fields; the kernel's verifier does not bound them itself *)
+Theorem compiled_jumps_fit_byte le k ai pol p :
+  compile le k ai pol = Ok p -> Forall byte_jump p.
+Proof. intros H. apply (compiled_structure _ _ _ _ _ H). Qed.
+Print Assumptions compiled_jumps_fit_byte.
+
+(** ** 3. The return words of a compiled program *)
+Theorem return_set_closed le k ai pol p v :
+  compile le k ai pol = Ok p -> In (IRet v) p ->
+  v = ret_word k (p_default pol) \/
+  (exists g, In g (p_groups pol) /\ v = ret_word k (g_action g)) \/
+  (ai_id ai = k_x86_64_id k /\ v = N.lor (k_errno k) (k_enosys k)).
+Proof.
+  intros H Hin. destruct (compile_shape _ _ _ _ _ H) as (body & B & ->).
+  destruct (compile_groups_facts _ _ _ _ _ B) as (_ & _ & Inv).
+  apply in_app_or in Hin. destruct Hin as [Hin|Hin].
+  { exfalso. unfold prologue in Hin.
+    destruct (_ <=? 255); cbn [In] in Hin; repeat (destruct Hin as [Hin|Hin]; [discriminate|]); exact Hin. }
+  apply in_app_or in Hin. destruct Hin as [Hin|Hin].
+  { exfalso. destruct Hin as [Hin|[]]. discriminate. }
+  apply in_app_or in Hin. destruct Hin as [Hin|Hin].
+  { right. right. unfold x32_filter in Hin. destruct (N.eqb_spec (ai_id ai) (k_x86_64_id k)) as [Ex|Ex]; [|destruct Hin].
+    destruct Hin as [Hin|[Hin|[]]]; [discriminate|]. injection Hin as <-. split; [exact Ex|reflexivity]. }
+  apply in_app_or in Hin. destruct Hin as [Hin|Hin].
+  { right. left. rewrite Forall_forall in Inv. exact (Inv _ Hin). }
+  left. destruct Hin as [Hin|[]]. injection Hin as <-. reflexivity.
+Qed.
+Print Assumptions return_set_closed.
+
+(** ** 5. Raw compiled programs return the decision of the specification *)
+Theorem compiled_no_fault le k ai pol p ev :
+  compile le k ai pol = Ok p -> (length p <= 4096)%nat ->
+  run_raw (word_at le ev) (map encode p) 0 0 = ORet (decide k ai pol ev).
+Proof.
+  intros H Hlen. rewrite run_raw_encode.
+  apply (compile_correct le k ai ev pol p H). unfold two32. lia.
+Qed.
+Print Assumptions compiled_no_fault.
+
+(** the same conclusion "some return" obtained through the certified checker: this is the path the
+    harness uses on the programs the Go implementation emits *)
+Corollary compiled_checked_returns le k ai pol p ev a :
+  compile le k ai pol = Ok p -> (length p <= 4096)%nat ->
+  exists v, run_raw (word_at le ev) (map encode p) 0 a = ORet v.
+Proof.
+  intros H Hlen. apply kernel_check_sound.
+  - eapply compiled_kernel_valid; eauto.
+  - apply ours_encode.
+  - apply word_at_total.
+Qed.
+Print Assumptions compiled_checked_returns.
+
+(** ** 6. Non-vacuity: concrete policies satisfy the hypotheses and are accepted *)
+Module Examples.
+Definition ex_ai : arch_info :=
+  {| ai_name := "x86_64"; ai_id := 3221225534; ai_mask := 0;
+     ai_table := [(0,"read"); (1,"write"); (2,"open"); (59,"execve")]%string |}.
+Definition ex_k : consts :=
+  {| k_named_actions := [0; 2147483648; 196608; 327680; 2146435072; 2147221504; 2147418112];
+     k_errno := 327680; k_eperm := 1; k_enosys := 38; k_x32mask := 1073741824; k_x86_64_id := 3221225534 |}.
+(** default allow; execve -> errno; read, and write when arg0 == 2 -> kill *)
+Definition ex_pol : policy :=
+  {| p_default := 2147418112;
+     p_groups := [ {| g_names := ["execve"%string]; g_nwc := []; g_action := 327680 |};
+                   {| g_names := ["read"%string];
+                      g_nwc := [ {| nc_name := "write"; nc_conds := [ {| c_arg := 0; c_op := OpEq; c_val := 2 |} ] |} ];
+                      g_action := 0 |} ] |}.
+
+Definition ex_prog : list instr :=
+  [ILd 4; IJmpIf JNe 3221225534 15 0; ILd 0; IJmpIf JGe 1073741824 0 1; IRet 327718;
+   IJmpIf JEq 59 1 0; IJa 1; IRet 327681;
+   IJmpIf JEq 0 7 0; IJmpIf JNe 1 5 0; ILd 20; IJmpIf JNe 0 2 0; ILd 16; IJmpIf JEq 2 2 0; ILd 0; IJa 1; IRet 0;
+   IRet 2147418112].
+
+Example ex_wf : wf_policy ex_pol /\ wf_arch ex_ai /\ wf_consts ex_k.
+Proof.
+  unfold wf_policy, wf_arch, wf_consts, wf_group, wf_cnd.
+  repeat (split || constructor); reflexivity.
+Qed.
+
+Example ex_compiles : compile true ex_k ex_ai ex_pol = Ok ex_prog.
+Proof. vm_compute. reflexivity. Qed.
+
+Example ex_hypotheses : (length ex_prog <= 4096)%nat.
+Proof. cbn. lia. Qed.
+
+Example ex_accepted : kernel_check (map encode ex_prog) = true.
+Proof. vm_compute. reflexivity. Qed.
+
+(** the theorems apply, and agree with the computation *)
+Example ex_accepted_by_theorem : kernel_check (map encode ex_prog) = true.
+Proof. exact (compiled_kernel_valid _ _ _ _ _ ex_compiles ex_hypotheses). Qed.
+
+Example ex_returns : forall v, In (IRet v) ex_prog -> In v [2147418112; 327681; 0; 327718].
+Proof.
+  intros v H. destruct (return_set_closed _ _ _ _ _ _ ex_compiles H) as [->|[(g & Hg & ->)|[_ ->]]].
+  - left. reflexivity.
+  - destruct Hg as [<-|[<-|[]]]; [right; left|right; right; left]; reflexivity.
+  - right. right. right. left. reflexivity.
+Qed.
+
+(** a large policy on another architecture, big-endian: 80 conditional entries with two conditions each and
+    100 plain names; 1095 instructions, long form of the architecture check (ja 1091), bridges *)
+Definition nm (n:nat) : string := String (Ascii.ascii_of_nat n) EmptyString.
+Definition big_ai : arch_info :=
+  {| ai_name := "arm64"; ai_id := 3221225655; ai_mask := 0;
+     ai_table := map (fun n => (N.of_nat n, nm n)) (seq 0 200) |}.
+Definition big_pol : policy :=
+  {| p_default := 0;
+     p_groups := [ {| g_names := map nm (seq 100 50);
+                      g_nwc := map (fun n => {| nc_name := nm n;
+                                                nc_conds := [ {| c_arg := 5; c_op := OpGe; c_val := 4294967296 + N.of_nat n |};
+                                                              {| c_arg := 1; c_op := OpNSet; c_val := 7 |} ] |}) (seq 0 80);
+                      g_action := 2147418112 |};
+                   {| g_names := map nm (seq 150 50); g_nwc := []; g_action := 327680 |} ] |}.
+
+Example big_accepted :
+  exists p, compile false ex_k big_ai big_pol = Ok p /\ length p = 1095%nat /\
+            firstn 3 p = [ILd 4; IJmpIf JEq 3221225655 1 0; IJa 1091] /\
+            kernel_check (map encode p) = true.
+Proof. eexists. split; [vm_compute; reflexivity|]. split; [|split]; vm_compute; reflexivity. Qed.
+
+(** the length hypothesis of [compiled_kernel_valid] cannot be dropped: one name with 1200 one-condition lists *)
+Definition huge_pol : policy :=
+  {| p_default := 0;
+     p_groups := [ {| g_names := [];
+                      g_nwc := map (fun n => {| nc_name := nm 1; nc_conds := [ {| c_arg := 0; c_op := OpEq; c_val := N.of_nat n |} ] |}) (seq 0 1200);
+                      g_action := 2147418112 |} ] |}.
+Example bound_needed :
+  match compile true ex_k big_ai huge_pol with
+  | Ok p => Nat.ltb 4096 (length p) && negb (kernel_check (map encode p))
+  | Error _ => false
+  end = true.
+Proof. vm_compute. reflexivity. Qed.
+End Examples.
